@@ -525,7 +525,8 @@ def main(tier, seed):
                     k, det = toolrun.classify_tool(rc, e)
                     return dict(job=job, status="ran", outcome=k, det=det, src=src, expect_ctx=("VfMark", None), note=note, stderr=e[-1200:], sigs=[])
                 if flag == "static_slices":
-                    m = add_method(opq, "bad_feature", ("ref", None), [("x", raw(rng.choice(["&'static [u8]", "&'static str", "&'static DiplomatStr16", "&'static [f64]"])))], ("unit",))
+                    m = add_method(opq, "bad_feature", ("ref", None), [("x", raw(rng.choice(["&'static [u8]", "&'static str", "&'static DiplomatStr16", "&'static [f64]", "Option<&'static [u8]>", "Option<&'static str>",
+                                                                                            "Option<&'static DiplomatStr>", "Option<&'static [i32]>"])))], ("unit",))
                 else:
                     m = add_method(opq, "bad_feature", ("ref", None), [mk(opq)], ("unit",))
                 expect_ctx = (opq.name, m.name)
